@@ -29,6 +29,10 @@ public:
   void Convert(const ItemType& cc, int ) {
     const auto& args = cc.GetArguments();
     auto compl_arg0 = GetMC().MakeComplementVar(args[0]);
+    /// args[0] is used twice below (complemented and as is).
+    /// Count the extra use so that inlining it into disj2
+    /// does not mark its defining constraint as unused.
+    GetMC().IncrementVarUsage(args[0]);
     /// args[0] ==> args[1]
     auto disj1 = GetMC().AssignResultVar2Args(
           OrConstraint{ {compl_arg0, args[1]} });
